@@ -928,3 +928,9 @@ func globalLoadName(v ssa.Value) string {
 	}
 	return ""
 }
+
+// types_IsInterfaceIdentical: go/ssa's nil-check form of a method value on an interface
+// (x.(I) with I identical to x's static type), which cannot fail for a non-nil x.
+func types_IsInterfaceIdentical(x *ssa.TypeAssert) bool {
+	return types.IsInterface(x.AssertedType) && types.Identical(x.AssertedType, x.X.Type())
+}
